@@ -524,8 +524,9 @@ def main():
         for f in ([2, 3] if T else [2]):
             nproc_cases(B, S, f, [2], [1], same_file=True)
         if T:
-            S2 = scopes[(tname, "dense", False)] if (tname, "dense", False) in scopes else scopes[(tname, "sparse-empty-row", False)]
-            nproc_cases(B, S2, 2, [2], [1, 3], same_file=False)
+            S2 = scopes.get((tname, "dense", False)) or scopes.get((tname, "sparse-empty-row", False))
+            if S2 is not None:
+                nproc_cases(B, S2, 2, [2], [1, 3], same_file=False)
 
     # ---------------------------------------------------------------- 3. value columns, aggregations, dtypes
     agg_tabs = tabs if T else [t for t in tabs if t[0] in ("fixed10-short-last", "variable", "fixed-3chrom")]
